@@ -1,7 +1,9 @@
 package rest
 
 import (
+	"errors"
 	"net/http"
+	"sync"
 	"time"
 
 	"github.com/gorilla/websocket"
@@ -26,6 +28,11 @@ const (
 	maxMessageSizeV2 = 512
 )
 
+var (
+	errListenerClosedV2 = errors.New("websocket listener closed")
+	errListenerSlowV2   = errors.New("websocket listener queue full, dropping client")
+)
+
 // options for gorilla connection upgrader
 var upgraderV2 = websocket.Upgrader{
 	ReadBufferSize:  1024,
@@ -37,6 +44,8 @@ type msgListenerV2 struct {
 	hub     *msghub.Hub                    // Global message hub.
 	c       chan *model.JSONMonitorEventV2 // Queue of incoming events.
 	mailbox string                         // Name of mailbox to monitor, "" == all mailboxes.
+	done    chan struct{}                  // Closed by Close(); c itself is never closed.
+	once    sync.Once                      // Guards done.
 }
 
 // newMsgListenerV2 creates a listener and registers it.  Optional mailbox parameter will restrict
@@ -46,6 +55,7 @@ func newMsgListenerV2(hub *msghub.Hub, mailbox string) *msgListenerV2 {
 		hub:     hub,
 		c:       make(chan *model.JSONMonitorEventV2, 100),
 		mailbox: mailbox,
+		done:    make(chan struct{}),
 	}
 	hub.AddListener(ml)
 	return ml
@@ -59,12 +69,27 @@ func (ml *msgListenerV2) Receive(msg event.MessageMetadata) error {
 	}
 
 	// Enqueue for websocket.
-	ml.c <- &model.JSONMonitorEventV2{
+	return ml.enqueue(&model.JSONMonitorEventV2{
 		Variant: "message-stored",
 		Header:  metadataToHeader(&msg),
-	}
+	})
+}
 
-	return nil
+// enqueue hands an event to the websocket writer without ever blocking the hub: a listener that
+// was closed, or whose client is not keeping up, reports an error and is dropped by the hub.
+func (ml *msgListenerV2) enqueue(ev *model.JSONMonitorEventV2) error {
+	select {
+	case <-ml.done:
+		return errListenerClosedV2
+	default:
+	}
+	select {
+	case ml.c <- ev:
+		return nil
+	default:
+		ml.once.Do(func() { close(ml.done) })
+		return errListenerSlowV2
+	}
 }
 
 // Delete handles a deleted message.
@@ -75,15 +100,13 @@ func (ml *msgListenerV2) Delete(mailbox string, id string) error {
 	}
 
 	// Enqueue for websocket.
-	ml.c <- &model.JSONMonitorEventV2{
+	return ml.enqueue(&model.JSONMonitorEventV2{
 		Variant: "message-deleted",
 		Identifier: &model.JSONMessageIDV2{
 			Mailbox: mailbox,
 			ID:      id,
 		},
-	}
-
-	return nil
+	})
 }
 
 // WSReader makes sure the websocket client is still connected, discards any messages from client
@@ -136,6 +159,10 @@ func (ml *msgListenerV2) WSWriter(conn *websocket.Conn) {
 	// Handle messages from hub until msgListener is closed
 	for {
 		select {
+		case <-ml.done:
+			// msgListener closed, exit
+			_ = conn.WriteMessage(websocket.CloseMessage, []byte{})
+			return
 		case event, ok := <-ml.c:
 			if err := conn.SetWriteDeadline(time.Now().Add(writeWaitV2)); err != nil {
 				slog.Warn().Err(err).Msg("Failed to set write deadline for msg")
@@ -165,13 +192,9 @@ func (ml *msgListenerV2) WSWriter(conn *websocket.Conn) {
 
 // Close removes the listener registration
 func (ml *msgListenerV2) Close() {
-	select {
-	case <-ml.c:
-		// Already closed
-	default:
-		ml.hub.RemoveListener(ml)
-		close(ml.c)
-	}
+	// Closing is signalled through done; the queue may still hold events and is left to the GC.
+	ml.once.Do(func() { close(ml.done) })
+	ml.hub.RemoveListener(ml)
 }
 
 // MonitorAllMessagesV2 is a web handler which upgrades the connection to a websocket and notifies
